@@ -194,7 +194,7 @@ func (v *Verifier) scanEffects(blocks []*ssa.BasicBlock, e *effects, visiting ma
 					e.heaps["S:"+TypeKey(x.Type().Underlying().(*types.Slice).Elem())] = true
 				}
 			case *ssa.Call:
-				v.callEffects(x.Common(), e, visiting)
+				v.callEffects(x.Common(), e, visiting, b.Parent())
 			case *ssa.Go, *ssa.Defer:
 				e.all = true
 				e.allocs = true
@@ -203,7 +203,7 @@ func (v *Verifier) scanEffects(blocks []*ssa.BasicBlock, e *effects, visiting ma
 	}
 }
 
-func (v *Verifier) callEffects(c *ssa.CallCommon, e *effects, visiting map[*ssa.Function]bool) {
+func (v *Verifier) callEffects(c *ssa.CallCommon, e *effects, visiting map[*ssa.Function]bool, encl *ssa.Function) {
 	if c.IsInvoke() {
 		// interface method: contract if any, else dispatch over implementers
 		impls := v.implementers(c.Value.Type(), c.Method)
@@ -237,7 +237,11 @@ func (v *Verifier) callEffects(c *ssa.CallCommon, e *effects, visiting map[*ssa.
 	case *ssa.MakeClosure:
 		v.mergeEffects(e, v.effectsOfCallee(callee.Fn.(*ssa.Function), visiting))
 	default:
-		// function value: assumed pure (uninterpreted) — listed as assumption
+		// function value: unknown effects unless the enclosing contract declares `purefuncs`
+		if pc := v.contractFor(encl); pc == nil || !pc.PureFuncs {
+			e.all = true
+			e.allocs = true
+		}
 	}
 }
 
@@ -388,7 +392,7 @@ func (u *Unit) wf(s *State, t types.Type, v *Term) *Term {
 			return And(Le(lo, v), Le(v, hi))
 		}
 		if ut.Info()&types.IsString != 0 {
-			return Ge(w.StrLen(v), IntLit(0))
+			return And(Ge(w.StrLen(v), IntLit(0)), Le(w.StrLen(v), Leaf("2305843009213693952", "Int")))
 		}
 		if ut.Info()&types.IsFloat != 0 && w.FM == FloatBits {
 			return And(App("<=", "Bool", IntLit(0), v), App("<", "Bool", v, pow2(64)))
@@ -482,6 +486,10 @@ func (u *Unit) initialState() *State {
 		// closure analysed standalone: captured cells are arbitrary heap cells
 		v := u.symbolic(s, "fv_"+fv.Name(), fv.Type())
 		f.Vals[fv] = v
+		if _, ok := fv.Type().Underlying().(*types.Pointer); ok && v.T != nil {
+			// a captured variable's cell exists
+			s.assume(Not(Eq(v.T, IntLit(0))))
+		}
 	}
 	// requires
 	if u.C != nil {
@@ -1492,6 +1500,16 @@ func (u *Unit) convert(s *State, in ssa.Instruction, v Value, from, to types.Typ
 			s.assume(Forall([]*Term{k}, Eq(Select(chars, k), Select(row, Add(k, w.SOff(sl)))), Select(chars, k)))
 		}
 		return Value{T: Mk(w.StrDT(), chars, w.SLen(sl)), Ty: to}
+	case tok && isString(to) && isSliceOf(from, types.Int32):
+		// string([]rune): 0..4 bytes per rune, abstract content
+		sl := u.term(s, v)
+		_, h := u.heap(s, "S", from.Underlying().(*types.Slice).Elem())
+		row := Select(h, w.SRef(sl))
+		// deterministic function of the rune sequence (same memory => same string)
+		chars := w.UF("r2s_chars", []string{row.Sort, "Int", "Int"}, "(Array Int Int)", row, w.SOff(sl), w.SLen(sl))
+		ln := u.named(s, "r2slen", w.UF("r2s_len", []string{row.Sort, "Int", "Int"}, "Int", row, w.SOff(sl), w.SLen(sl)))
+		s.assume(And(Le(w.SLen(sl), ln), Le(ln, Mul(IntLit(4), w.SLen(sl)))))
+		return Value{T: Mk(w.StrDT(), chars, ln), Ty: to}
 	case tok && isString(to) && fok && fb.Info()&types.IsInteger != 0:
 		// string(rune)
 		chars := u.fresh(s, "runestr", "(Array Int Int)")
@@ -1717,6 +1735,13 @@ func (u *Unit) globalVal(s *State, g *ssa.Global) *Term {
 	}
 	u.W.Declare(name, fmt.Sprintf("(declare-const %s %s)", name, sort))
 	t := Leaf(name, sort)
+	if u.V.isConstGlobal(g) && isPointerLike(pt) && u.V.initNonNil(g) {
+		// initialised once by a constructor that never returns nil (regexp.MustCompile, &T{...})
+		if !u.W.declared[name+"$nn"] {
+			u.W.declared[name+"$nn"] = true
+			u.W.decls = append(u.W.decls, fmt.Sprintf("(assert (> %s 0))", name))
+		}
+	}
 	// error sentinels and other interface-typed package vars: non-nil, pairwise distinct
 	if _, ok := pt.Underlying().(*types.Interface); ok && strings.HasPrefix(g.Name(), "Err") {
 		if !u.W.declared[name+"$ax"] {
